@@ -48,6 +48,14 @@ def registry():
     reg.spec('vgate', vgate_z, vgate_py, vgate_z.__doc__)
     reg.spec('pyeq', pyeq_z, lambda a, b: a == b, pyeq_z.__doc__)
     lookup3(reg)
+    folds(reg)
+    flatten(reg)
+    reg.spec('raises0', lambda f: T().app0_raises(_toV(f)), _raises0_py, 'calling the 0-ary callable raises')
+    reg.spec('call0', lambda f: T().app0(_toV(f)), lambda f: f(), 'value of calling the 0-ary callable')
+    logical2(reg)
+    condfolds(reg)
+    condfolds2(reg)
+    condfolds3(reg)
     return reg
 
 
@@ -468,3 +476,301 @@ def pyeq_z(a, b):
     z3, S = z(), T()
     a, b = _toV(a), _toV(b)
     return z3.If(z3.And(S.is_num(a), S.is_num(b)), S.real_of(a) == S.real_of(b), a == b)
+
+
+# ------------------------------------------------------------------------------------------------ C11
+def is_numcell_z(x):
+    """a numeric cell: exactly int or float (booleans, blanks, texts and dates are not)"""
+    z3, S = z(), T()
+    x = _toV(x)
+    return z3.Or(S.is_('Int', x), S.is_('Float', x))
+
+
+def folds(reg):
+    reg.spec('is_digits', lambda s_: z().InRe(__import__('pv.symspec', fromlist=['to_str']).to_str(s_), z().Plus(z().Range('0', '9'))), lambda s_: s_.isascii() and s_.isdigit(), 'ASCII digit string')
+    reg.spec('is_numcell', is_numcell_z, lambda x: type(x) in (int, float), is_numcell_z.__doc__)
+    reg.add(Contract(
+        '_only_numeric_list.filter', 'runtime:_only_numeric_list#filter0', {'i': 'V', 'with_string_digits': 'bool'},
+        self_class='ExcelInPython',
+        ensures={'numeric_only': 'implies(not Bv(with_string_digits), truthy(result) == is_numcell(i))',
+                 'digit_strings_too': 'implies(Bv(with_string_digits), truthy(result) == (is_numcell(i) or '
+                                      '(is_str(i) and is_digits(i))))'},
+        notes='element-level contract of the filter of [i for i in flatten_list if ...]: an element is kept exactly '
+              'when it is an int or a float (booleans, blanks, texts, dates are not); K3 shape obligation '
+              'C11._only_numeric_list.shape makes the function the filter of its argument by this predicate'))
+    reg.add(Contract(
+        '_only_bool_list.filter', 'runtime:_only_bool_list#filter0', {'i': 'V'}, self_class='ExcelInPython',
+        ensures={'bool_only': 'truthy(result) == is_bool(i)'}))
+    reg.add(Contract(
+        '_only_datetime_list.filter', 'runtime:_only_datetime_list#filter0', {'i': 'V'}, self_class='ExcelInPython',
+        ensures={'datetime_only': 'truthy(result) == is_datetime(i)'}))
+    reg.add(Contract(
+        '_count_blank.filter', 'runtime:_count_blank#filter0', {'elem': 'scalar'}, self_class='ExcelInPython',
+        ensures={'blank_or_empty_text': 'truthy(result) == (is_none(elem) or is_empty(elem) or (is_str(elem) and S(elem) == ""))'},
+        notes='COUNTBLANK counts exactly the blank and empty-text cells; a blank is None or an EmptyCell; the '
+              'EmptyCell case goes through the extracted EmptyCell.__eq__'))
+    reg.add(Contract(
+        '_when_cell_is_empty_cast_to_zero.elt', 'runtime:_when_cell_is_empty_cast_to_zero#elt0', {'i': 'V', 'self': 'obj:ExcelInPython'},
+        self_class='ExcelInPython',
+        ensures={'blank_to_zero': 'result == ite(is_empty(i), 0, i)'}))
+
+
+_LC = {}
+
+
+def _lc_funs():
+    """leafcount(x) / leafcount of the first k elements of x, as mutually recursive z3 functions."""
+    if not _LC:
+        z3, S = z(), T()
+        lc = z3.RecFunction('leafcount', S.V, S.I)
+        lcp = z3.RecFunction('leafcount_prefix', S.V, S.I, S.I)
+        x, k = z3.Const('lc_x', S.V), z3.Int('lc_k')
+        z3.RecAddDefinition(lc, [x], z3.If(S.is_('List', x), lcp(x, S.ln(x)), z3.IntVal(1)))
+        z3.RecAddDefinition(lcp, [x, k], z3.If(k <= 0, z3.IntVal(0), lcp(x, k - 1) + lc(S.at(x, k - 1))))
+        _LC['lc'], _LC['lcp'] = lc, lcp
+    return _LC['lc'], _LC['lcp']
+
+
+def leafcount_z(x):
+    return _lc_funs()[0](_toV(x))
+
+
+def lcp_z(x, k):
+    from pv.symspec import to_int
+    return _lc_funs()[1](_toV(x), to_int(k))
+
+
+def leafcount_py(x):
+    return sum(leafcount_py(i) for i in x) if type(x) is list else 1
+
+
+def acyclic_z():
+    """A-ACYCLIC: lists are finite trees (a rank decreases from a list to its elements)"""
+    z3, S = z(), T()
+    depth = z3.Function('list_depth', S.V, S.I)
+    x, i = z3.Const('ac_x', S.V), z3.Int('ac_i')
+    return z3.ForAll([x, i], z3.Implies(z3.And(S.is_('List', x), 0 <= i, i < S.ln(x)),
+                                        z3.And(depth(S.at(x, i)) < depth(x), depth(S.at(x, i)) >= 0)),
+                     patterns=[depth(S.at(x, i))])
+
+
+def flatten(reg):
+    reg.spec('leafcount', leafcount_z, leafcount_py, 'number of non-list leaves of a nested list (1 for a non-list)')
+    reg.spec('lcp', lcp_z, lambda x, k: sum(leafcount_py(i) for i in x[:k]), 'leaves of the first k elements')
+    reg.spec('acyclic', acyclic_z, lambda: True, acyclic_z.__doc__)
+    reg.add(Contract(
+        '_flatten_list', 'runtime:_flatten_list', {**SELF, 'subject': 'list'}, self_class='ExcelInPython',
+        requires=['acyclic()'],
+        ensures={
+            'is_list': 'is_list(result)',
+            'no_lists': 'all(not is_list(result[j]) for j in range(len(result)))',
+            'length': 'len(result) == leafcount(subject)',
+            'flat_identity': 'implies(all(not is_list(subject[j]) for j in range(len(subject))), '
+                             'len(result) == len(subject) and all(result[j] == subject[j] for j in range(len(subject))))',
+        },
+        invariants={0: {
+            'is_list': 'is_list(result) and len(result) >= 0',
+            'no_lists': 'all(not is_list(result[j]) for j in range(len(result)))',
+            'length': 'len(result) == lcp(subject, k0)',
+            'flat_prefix': 'implies(all(not is_list(subject[j]) for j in range(k0)), '
+                           'len(result) == k0 and all(result[j] == subject[j] for j in range(k0)))',
+        }},
+        notes='flattening keeps every leaf (as many result elements as leaves, none of them a list) and is the '
+              'identity on an already flat list; own contract as induction hypothesis for the recursive call'))
+
+
+def logical2(reg):
+    reg.add(Contract(
+        '_iferror', 'runtime:_iferror', {**SELF, 'condition_function': 'fn', 'when_error': 'scalar'},
+        self_class='ExcelInPython',
+        ensures={
+            'fallback_when_raises': 'implies(raises0(condition_function), result == when_error)',
+            'fallback_when_error_value': 'implies(not raises0(condition_function) and is_err(call0(condition_function)), '
+                                         'result == when_error)',
+            'value_otherwise': 'implies(not raises0(condition_function) and not is_err(call0(condition_function)), '
+                               'result == call0(condition_function))',
+        },
+        notes='IFERROR returns its fallback exactly when evaluating the first argument fails or yields one of the '
+              'seven Excel error values; the guarded expression is an abstract callable'))
+
+
+def _raises0_py(f):
+    try:
+        f()
+        return False
+    except BaseException:  # noqa
+        return True
+
+
+# ------------------------------------------------------------------------------------------------ C12
+_RF = {}
+
+
+def _crit_true(f, x):
+    S = T()
+    return S.truthy(S.app1(f, x))
+
+
+def _numval(x):
+    """numeric value of a target cell as the folds see it: `x or 0` for falsy cells, booleans as 0/1"""
+    S = T()
+    return S.real_of(x)
+
+
+def sumsel_fn():
+    if 'sumsel' not in _RF:
+        z3, S = z(), T()
+        f = z3.RecFunction('sumsel', S.V, S.V, S.V, S.I, S.R)
+        r, s_, c, k = z3.Const('ss_r', S.V), z3.Const('ss_s', S.V), z3.Const('ss_c', S.V), z3.Int('ss_k')
+        term = z3.If(z3.And(k - 1 < S.ln(s_), _crit_true(c, S.at(r, k - 1)), S.is_num(S.at(s_, k - 1))),
+                     S.real_of(S.at(s_, k - 1)), z3.RealVal(0))
+        z3.RecAddDefinition(f, [r, s_, c, k], z3.If(k <= 0, z3.RealVal(0), f(r, s_, c, k - 1) + term))
+        _RF['sumsel'] = f
+    return _RF['sumsel']
+
+
+def sumsel_z(r, s_, c, k):
+    from pv.symspec import to_int
+    return sumsel_fn()(_toV(r), _toV(s_), _toV(c), to_int(k))
+
+
+def sumsel_py(r, s_, c, k):
+    tot = 0
+    for i in range(k):
+        if i < len(s_) and c(r[i]) and isinstance(s_[i], (int, float)):
+            tot += s_[i]
+    return tot
+
+
+def condfolds(reg):
+    reg.spec('sumsel', sumsel_z, sumsel_py,
+             'sum over positions i < k with i < len(s), criterion(r[i]) true, of the numeric value of s[i] (blank / None count 0)')
+    flat_r = 'all(not is_list(range_[j]) for j in range(len(range_)))'
+    flat_s = ('all(is_int(sum_range[j]) or is_float(sum_range[j]) or is_none(sum_range[j]) or is_empty(sum_range[j]) '
+              'for j in range(len(sum_range)))')
+    reg.add(Contract(
+        '_sum_if', 'runtime:_sum_if', {**SELF, 'range_': 'list', 'criteria': 'fn', 'sum_range': 'list'},
+        self_class='ExcelInPython', total_fns=['criteria'],
+        requires=['acyclic()', flat_r, flat_s],
+        ensures={'selected_sum': 'is_num(result) and R(result) == sumsel(old(range_), old(sum_range), criteria, len(old(range_)))'},
+        invariants={0: {'partial': 'is_num(result) and R(result) == sumsel(old(range_), old(sum_range), criteria, k0)',
+                        'same_r': 'is_list(range_) and len(range_) == len(old(range_)) and '
+                                  'all(range_[j] == old(range_)[j] for j in range(len(range_)))',
+                        'same_s': 'is_list(sum_range) and len(sum_range) == len(old(sum_range)) and '
+                                  'all(sum_range[j] == old(sum_range)[j] for j in range(len(sum_range)))'}},
+        notes='SUMIF adds the aligned target cell of exactly the positions whose range cell the criterion accepts '
+              '(flat ranges; flattening is under its own contract; the criterion is an abstract total callable)'))
+
+
+def selsum2_fn():
+    """sum over i < k of s[i] where both criteria accept (r0[i], r1[i] after blank->0, bool->int) and s[i] is numeric"""
+    if 'selsum2' not in _RF:
+        z3, S = z(), T()
+        f = z3.RecFunction('selsum2', S.V, S.V, S.V, S.V, S.V, S.I, S.R)
+        s_, r0, c0, r1, c1, k = (z3.Const('s2_s', S.V), z3.Const('s2_r0', S.V), z3.Const('s2_c0', S.V),
+                                 z3.Const('s2_r1', S.V), z3.Const('s2_c1', S.V), z3.Int('s2_k'))
+        x = S.at(s_, k - 1)
+        sel = z3.And(_crit_true(c0, norm_z(S.at(r0, k - 1))), _crit_true(c1, norm_z(S.at(r1, k - 1))))
+        term = z3.If(z3.And(sel, z3.Or(S.is_('Int', x), S.is_('Float', x), S.is_('Bool', x))), S.real_of(x), z3.RealVal(0))
+        z3.RecAddDefinition(f, [s_, r0, c0, r1, c1, k], z3.If(k <= 0, z3.RealVal(0), f(s_, r0, c0, r1, c1, k - 1) + term))
+        _RF['selsum2'] = f
+    return _RF['selsum2']
+
+
+def norm_z(x):
+    """criteria-range cell as the criterion sees it: blank counts as 0, TRUE/FALSE as 1/0"""
+    z3, S = z(), T()
+    x = _toV(x)
+    return z3.If(S.is_('Empty', x), S.vint(0), z3.If(S.is_('Bool', x), S.V.Int(z3.If(S.V.bval(x), 1, 0)), x))
+
+
+def norm_py(x):
+    if type(x).__name__ in ('EmptyCell', 'EmptyStandIn'):
+        return 0
+    return int(x) if isinstance(x, bool) else x
+
+
+def condfolds2(reg):
+    reg.spec('norm', norm_z, norm_py, norm_z.__doc__)
+    reg.spec('blank0', lambda x: z().If(T().is_('Empty', _toV(x)), T().vint(0), _toV(x)), lambda x: 0 if type(x).__name__ in ('EmptyCell', 'EmptyStandIn') else x, 'criteria-range cell as COUNTIFS sees it: blank counts as 0')
+    reg.spec('is_other', lambda x: T().is_('Other', _toV(x)), lambda x: type(x).__name__ == 'Undefined', 'an instance of the local exclusion class')
+    reg.spec('total1', total1_z, lambda f: True, total1_z.__doc__)
+    reg.spec('crit', lambda f, x: _crit_true(_toV(f), _toV(x)), lambda f, x: bool(f(x)), 'the criterion accepts the value')
+    flat = lambda n: f'all(not is_list({n}[j]) for j in range(len({n})))'   # noqa: E731
+    mark_inv = {
+        'len': 'is_list(sum_range) and len(sum_range) == len(pre(sum_range))',
+        'done': 'all(sum_range[j] == ite(crit(criteria, _range[j]), pre(sum_range)[j], None) for j in range(k2))',
+        'todo': 'all(implies(j >= k2, sum_range[j] == pre(sum_range)[j]) for j in range(len(sum_range)))',
+    }
+    def add_select(fname, target, tvar, npairs, loop_inner, fill, extra_params=None, extra_req=(), excluded='None'):
+        ps = {**SELF, tvar: 'list'}
+        if extra_params:
+            ps.update(extra_params)
+        va, req, sel = [], ['acyclic()', flat(tvar)] + list(extra_req), []
+        for n in range(npairs):
+            ps[f'r{n}'], ps[f'c{n}'] = 'list', 'fn'
+            va += [f'r{n}', f'c{n}']
+            req += [f'total1(c{n})', flat(f'r{n}')]
+            sel.append(f'crit(c{n}, {fill}(r{n}[j]))')
+        if excluded == 'undefined':
+            inv = {
+                'len': f'is_list({tvar}) and len({tvar}) == len(pre({tvar}))',
+                'done': f'all(ite(crit(criteria, _range[j]), {tvar}[j] == pre({tvar})[j], is_other({tvar}[j])) for j in range(k{loop_inner}))',
+                'todo': f'all(implies(j >= k{loop_inner}, {tvar}[j] == pre({tvar})[j]) for j in range(len({tvar})))',
+            }
+        else:
+          inv = {
+            'len': f'is_list({tvar}) and len({tvar}) == len(pre({tvar}))',
+            'done': f'all({tvar}[j] == ite(crit(criteria, _range[j]), pre({tvar})[j], {excluded}) for j in range(k{loop_inner}))',
+            'todo': f'all(implies(j >= k{loop_inner}, {tvar}[j] == pre({tvar})[j]) for j in range(len({tvar})))',
+        }
+        reg.add(Contract(
+            f'{fname}.select/{npairs}', target, ps, vararg_params=va, self_class='ExcelInPython', requires=req,
+            ensures={'selected': f'is_list(result) and len(result) == len(old({tvar})) and ' + (
+                f'all(result[j] == ite({" and ".join(sel)}, old({tvar})[j], {excluded}) for j in range(len(result)))'
+                if excluded == 'None' else
+                f'all(ite({" and ".join(sel)}, result[j] == old({tvar})[j], is_other(result[j])) for j in range(len(result)))'
+                if excluded == 'undefined' else
+                f'all(ite({" and ".join(sel)}, result[j] == old({tvar})[j], fresh_since(result[j], "old")) '
+                'for j in range(len(result)))')},
+            raises={'ExcelInPythonException': ' or '.join(f'len(r{n}) != len({tvar})' for n in range(npairs))},
+            invariants={loop_inner: inv},
+            notes=f'{fname[1:].upper()} with {npairs} (range, criterion) pair(s): after the marking loops position j still holds '
+                  'the target cell exactly when every criterion accepts the j-th cell of its range, else the exclusion '
+                  'mark; ranges of different sizes raise ExcelInPythonException (never silently mis-aligned). Dropped by '
+                  'the extraction: the final fold statement(s), which have their own obligations'))
+
+    for n in (1, 2):
+        add_select('_countifs', 'runtime:_countifs#head1:count_range', 'count_range', n, 2, 'blank0',
+                   extra_params={'count_condition': 'fn'}, excluded='excluded',
+                   extra_req=['all(not is_obj(count_range[j]) for j in range(len(count_range)))'])
+        add_select('_averageifs', 'runtime:_averageifs#head3:average_range', 'average_range', n, 2, 'norm',
+                   excluded='undefined',
+                   extra_req=['len(average_range) >= 1',
+                              'all(is_int(average_range[j]) or is_float(average_range[j]) or is_bool(average_range[j]) '
+                              'or is_empty(average_range[j]) for j in range(len(average_range)))'])
+        add_select('_sumifs', 'runtime:_sumifs#head2:sum_range', 'sum_range', n, 2, 'norm',
+                   extra_req=['all(not is_none(sum_range[j]) for j in range(len(sum_range)))'])
+
+
+def condfolds3(reg):
+    reg.add(Contract(
+        '_countifs.count_filter', 'runtime:_countifs#filter0', {'i': 'V', 'count_condition': 'fn', 'excluded': 'obj:object'},
+        self_class='ExcelInPython', requires=['total1(count_condition)'],
+        ensures={'counted': 'truthy(result) == (i != excluded and crit(count_condition, i))'},
+        notes='the final COUNTIFS fold counts a position exactly when it was not excluded and the count condition '
+              'accepts the cell (a zero or blank cell that was selected is counted)'))
+    reg.add(Contract(
+        '_sumifs.bool_to_int', 'runtime:_sumifs#elt0', {'i': 'V'}, self_class='ExcelInPython',
+        ensures={'bool_as_number': 'result == ite(is_bool(i), N(i), i)'}))
+    reg.add(Contract(
+        '_sumifs.keep_filter', 'runtime:_sumifs#filter1', {'i': 'V'}, self_class='ExcelInPython',
+        ensures={'keeps_selected': 'truthy(result) == (not is_none(i))'},
+        notes='the final SUMIFS fold keeps exactly the positions not marked None, then sums the numeric ones (C11 _sum)'))
+
+
+def total1_z(f):
+    """the callable never raises (criteria are abstract total functions here; their semantics is checked separately)"""
+    z3, S = z(), T()
+    x = z3.Const('tot_x', S.V)
+    return z3.ForAll([x], z3.Not(S.app1_raises(_toV(f), x)), patterns=[S.app1_raises(_toV(f), x)])
